@@ -49,7 +49,7 @@ def user_globals_canon(globals_, is_library):
 
 
 def run_real(plan, limit='absent', sim_options=True, hook=None, env=None, on_event=None, model=None,
-             globals_=None, max_starts=None):
+             globals_=None, max_starts=None, reuse_options=None):
     """Execute plan['model'] with the real runtime under the simulated world.
 
     limit: 'absent' (no maxStatements key) or an int.
@@ -87,7 +87,15 @@ def run_real(plan, limit='absent', sim_options=True, hook=None, env=None, on_eve
     for name in HOST_NAMES:
         globals_[name] = host_adapter(name)
 
-    options = SimOptions() if sim_options else {}
+    if reuse_options is not None:
+        # an embedder re-using one options object for a second execution: everything it sets is set again,
+        # whatever the runtime left behind in it (statementCount, …) stays
+        options = reuse_options
+        for key in ('debug', 'logFn', 'fetchFn', 'urlFn', 'systemPrefix', 'maxStatements'):
+            if key in options:
+                dict.__delitem__(options, key)
+    else:
+        options = SimOptions() if sim_options else {}
     options['globals'] = globals_
     if plan.get('debug'):
         options['debug'] = True
@@ -203,13 +211,13 @@ def norm_events(events):
     keep only the function name (message texts are not part of any property)."""
     out = []
     for ev in events:
-        if ev[0] == 'log' and isinstance(ev[1], str) and ev[1].startswith('BareScript: Function "'):
-            name = ev[1][len('BareScript: Function "'):].split('"', 1)[0]
-            out.append(('report', name))
-        elif ev[0] == 'log' and isinstance(ev[1], str) and ev[1].startswith('BareScript: Include "'):
+        if ev[0] == 'log' and isinstance(ev[1], str) and ev[1].startswith('BareScript: Include "'):
             continue   # lint output for included files: C18's business
         elif ev[0] == 'log' and isinstance(ev[1], str) and ev[1].startswith('BareScript:     '):
             continue
+        elif ev[0] == 'log' and isinstance(ev[1], str) and ev[1].startswith('BareScript:') and '"' in ev[1]:
+            # a failure report: the wording is not part of any property, the function it names is
+            out.append(('report', ev[1].split('"', 2)[1]))
         elif ev[0] == 'fail':
             out.append(ev[:4])
         else:
